@@ -436,6 +436,7 @@ spif_socket_accept(spif_socket_t self)
 
     if (newfd < 0) {
         libast_print_error("Unable to accept() connection on %d -- %s\n", self->fd, strerror(errno));
+        SPIF_DEALLOC(addr);
         return (spif_socket_t) NULL;
     }
 
